@@ -16,6 +16,15 @@ package chainntnfs_test
 // against the model's block (see confBlockDetails). Historical rescans are
 // answered with the block attached, as the real backends do.
 //
+// One transaction can satisfy several DIFFERENT requests at different output
+// (input) indexes: batch transactions pay 2-4 different watched scripts, sweep
+// transactions spend 2-4 different watched outpoints (verifC14MakeTx,
+// newBatch, registerBatch). Every watched script is still paid at most once on
+// any chain (all payers of a script conflict with each other), so this is not
+// address reuse. The model and the oracles are per request: a request is
+// satisfied by the transaction that carries its script at any output index
+// (spends its outpoint at any input index).
+//
 // External test package because channeldb imports chainntnfs.
 
 import (
@@ -43,7 +52,9 @@ import (
 // that every member tx pays to; all members spend the same dummy input so at
 // most one of them can be on the active chain: no address reuse) or a "spend
 // group" (a watched outpoint O with script P; every member tx spends O and
-// carries the witness that re-derives P).
+// carries the witness that re-derives P). A transaction can be a member of
+// several groups of either kind (it then conflicts with every member of each
+// of them).
 type verifC14Group struct {
 	ID      int
 	Spend   bool
@@ -611,6 +622,21 @@ func (h *verifC14H) violation(q *verifC14Req, oracle, key, detail string) {
 	h.vc.Violation(oracle, key, detail, h.witness())
 }
 
+// verifC14Panic is what callTol turns a panic of the notifier into.
+type verifC14Panic struct{ msg string }
+
+func (p verifC14Panic) Error() string { return "panic: " + p.msg }
+
+// verifC14Panics counts the recovered notifier panics of this process.
+var verifC14Panics int
+
+func verifC14PanicCheck(t *testing.T, vc *verifCtx) {
+	if verifC14Panics > 0 {
+		vc.Count("notifier_panics_recovered", int64(verifC14Panics))
+		t.Fatalf("verif C14: the notifier panicked inside %d API calls (see diag notifier_panic)", verifC14Panics)
+	}
+}
+
 // call runs one notifier API call. All sends to client channels happen inside
 // the call under the notifier's lock; should a (mutated) notifier block on a
 // full client channel, the pump below keeps consuming so that the run ends
@@ -624,12 +650,31 @@ func (h *verifC14H) call(name string, fn func() error) {
 // request that matured and was dropped while its rescan was in flight).
 func (h *verifC14H) callTol(name string, tolerate bool, fn func() error) {
 	done := make(chan error, 1)
-	go func() { done <- fn() }()
+	go func() {
+		defer func() {
+			if p := recover(); p != nil {
+				done <- verifC14Panic{fmt.Sprint(p)}
+			}
+		}()
+		done <- fn()
+	}()
 	timer := time.NewTimer(3 * time.Second)
 	defer timer.Stop()
 	for {
 		select {
 		case err := <-done:
+			if pe, ok := err.(verifC14Panic); ok {
+				// The notifier panicked inside the call (its deferred
+				// Unlock has run). That alone is no verdict: the history
+				// goes on and the trace oracles judge what the clients
+				// are (not) told from here on; the test function ends
+				// with t.Fatalf when panics were recovered, so a run
+				// with panics can never count as a pass.
+				verifC14Panics++
+				h.vc.Diag("notifier_panic", name+": "+pe.msg)
+				h.logf("PANIC in %s: %s", name, pe.msg)
+				return
+			}
 			if err != nil && tolerate {
 				h.vc.Diag("update_details_error", name+": "+err.Error())
 				h.logf("err(tolerated) %s: %v", name, err)
@@ -1492,7 +1537,8 @@ func (h *verifC14H) registerBatch(spend bool) bool {
 		}
 	}
 	ids = verifC14PickGroups(h.r, ids, 2+h.r.Intn(len(ids)-1))
-	h.logf("batch registration on t%d groups=%v", tx.ID, ids)
+	h.logf("batch registration on t%d (%d inputs, %d outputs; group->input %v, conf group->output %v) groups=%v",
+		tx.ID, len(tx.Msg.TxIn), len(tx.Msg.TxOut), tx.InIdx, tx.OutIdx, ids)
 	h.vc.Count("batch_registrations", 1)
 	if _, in := h.m.inChain[tx.ID]; !in && h.r.Chance(2, 3) {
 		// registered, then broadcast: the backend will try to mine it.
@@ -2290,6 +2336,7 @@ func TestVerifC14Concurrent(t *testing.T) {
 		}
 		verifC14RunConcurrentCase(t, vc, i, cache)
 	}
+	verifC14PanicCheck(t, vc)
 }
 
 func verifC14Bucket(n int) int {
@@ -2324,4 +2371,5 @@ func TestVerifC14(t *testing.T) {
 			verifC14RunCase(t, vc, i, cache)
 		}
 	}
+	verifC14PanicCheck(t, vc)
 }
